@@ -232,6 +232,26 @@ fn frame_pool(ctx: &Ctx, per_class: usize) -> Vec<Vec<u8>> {
                 pool.push(b);
             }
         }
+        // every supported format with bytes after the frame (a newline, another frame, a capture
+        // file) and cut short at the lengths where the parser's requests end
+        for df in SUPPORTED_DF {
+            for extra in [1usize, 2, 7, 14, 19] {
+                let mut b = gen_frame_df(&mut rng, df);
+                if (df == 20 || df == 21) && extra % 2 == 1 {
+                    b[4] = if extra == 1 { 0x10 } else { 0x20 };
+                }
+                let t = rng.bytes(extra);
+                b.extend_from_slice(&t);
+                pool.push(b);
+            }
+            for cut in [1usize, 4, 6, 7, 10, 11, 13] {
+                let mut b = gen_frame_df(&mut rng, df);
+                if cut < b.len() {
+                    b.truncate(cut);
+                    pool.push(b);
+                }
+            }
+        }
         // truncated and over-long variants, unsupported formats
         for _ in 0..12 {
             let f = gen_frame(&mut rng);
